@@ -505,3 +505,49 @@ def through_local(fn, leaf):
         l = strip(v)
         seen += 1
     return l
+
+
+def check_init(ctx, P, fname, fields, calls=(), rule="init", why="a primitive that starts from a wrong word behaves as if it had phantom holders / waiters / units from the first operation on"):
+    """The initialiser stores the given starting values (constant or the named parameter) on its success path and initialises
+    the listed sub-objects.  fields: [(record, field, value)] with value an int or "param:<name>"."""
+    f = P.fn(fname)
+    o = ctx.ob(rule, f, "%s sets %s%s" % (fname, ", ".join("%s = %s" % (fl, v) for _, fl, v in fields),
+                                          (" and initialises " + ", ".join(c if isinstance(c, str) else c[0] for c in calls)) if calls else ""), why)
+    bad = None
+    for rec, fl, want in fields:
+        sts = [s for s in f.stores_to(rec, fl) if key_mentions(f.target_key(s.target), lambda x: x[0] == "var" and x[2] == f.params[0]["did"])
+               or key_mentions(f.key(s.target, True), lambda x: x[0] == "call")]
+        sts = sts or f.stores_to(rec, fl)
+        if not sts:
+            zeroed = [s for s in f.stores() if s.kind == "memset" and s.value is not None and strip(s.value).cv == 0] or f.calls("calloc")
+            if want == 0 and zeroed:
+                continue
+            bad = bad or "`%s` is never initialised" % fl
+            continue
+        for s in sts:
+            v = strip(s.value) if s.value is not None else None
+            if isinstance(want, str) and want.startswith("param:"):
+                ok = v is not None and fn_param_name(f, v) == want[6:]
+            else:
+                ok = v is not None and (v.cv == want or (s.value.cv == want))
+                if not ok and v is not None:
+                    try:
+                        ok = ev(f, s.value, None) == want
+                    except Unevaluable:
+                        ok = False
+            if not ok:
+                bad = bad or "`%s` starts as `%s`, expected %s" % (fl, s.value.text if s.value is not None else "?", want)
+    for c in calls:
+        name = c if isinstance(c, str) else c[0]
+        cs = f.calls(name)
+        need = 1 if isinstance(c, str) else c[1]
+        if len(cs) < need:
+            bad = bad or "%s is called %d time(s), expected %d" % (name, len(cs), need)
+    o.check(bad is None, "initial values", bad, site=f.loc, construct="initial values of " + fname)
+
+
+def fn_param_name(f, v):
+    v = f.resolve(v)
+    if v is not None and v.k == "DeclRefExpr" and v.dk == "param":
+        return v.name
+    return None
